@@ -44,7 +44,7 @@ MapExtendLoop(t, ys, ph, env, n) ==
        IN IF r.st # "ok" THEN r ELSE MapExtendLoop(r.t, Tail(ys), ph, env, r.n)
 
 \* all visited elements get v + 1000 (the drivers' predicates mutate through &mut)
-Bump(t, idxs) == [t EXCEPT !.data = [i \in 0..t.mask |-> IF i \in idxs THEN SetV(t.data[i], t.data[i][3] + 1000) ELSE t.data[i]]]
+Bump(t, idxs) == [t EXCEPT !.data = [i \in 0..t.mask |-> IF i \in idxs THEN SetV(t.data[i], BumpV(t.data[i][3])) ELSE t.data[i]]]
 Prefix(s, n) == IF n >= Len(s) THEN s ELSE SubSeq(s, 1, n)
 
 MapOp(e, t, ph, env) ==
